@@ -374,3 +374,60 @@ func TestVerifServerWritePaths(t *testing.T) {
 	}
 	rec.Set("rule", "13 write paths x up to 11 corruption kinds x sizes {1,4096,70000(,+chunk edges)} x 2 storage modes, fresh random blob per case; distinct by (mode,path,kind,size)")
 }
+
+// C17 at the server level: with the cache filled up to max_size_hard_limit, every write path
+// answers 507 / RESOURCE_EXHAUSTED (never OK, never another error class), stores nothing, evicts
+// nothing, and reads keep working.
+func TestVerifServerHardLimit(t *testing.T) {
+	rec := vNewRecorder(t, "srvhard")
+	defer rec.Close(t)
+	rng := vNewRand("srvhard")
+	web := vNewWeb()
+	defer web.srv.Close()
+	paths := []string{"httpPut", "httpPutCL", "httpPutZstd", "batch", "batchZstd", "bsWrite", "bsWriteZstd", "acInline", "acInlineStdout", "fetchBlob"}
+	for _, mode := range []string{"uncompressed", "zstd"} {
+		for round := 0; round < vScale(3, 20); round++ {
+			f := vNewFix(t, vFixOpts{mode: mode, maxSize: 1 << 20, hardLimit: 1 << 20, validateAC: true})
+			// fill: incompressible 32 KiB blobs until the next one would not fit under the hard limit
+			var stored [][]byte
+			for i := 0; i < 31; i++ {
+				b := rng.Bytes(32 * 1024)
+				if code, _, _ := f.vHTTPDo("PUT", "/cas/"+vSha(b), nil, b); code != 200 {
+					break
+				}
+				stored = append(stored, b)
+			}
+			_, _, before, _ := f.cache.Stats()
+			for _, p := range paths {
+				rec.Case()
+				u := vMakeUpload(rng, p, "good", 40*1024+rng.Intn(20000))
+				acked, detail := f.vDoUpload(t, rng, u, web)
+				rec.Note(fmt.Sprintf("%s mode=%s -> acked=%v %s", p, mode, acked, detail))
+				rec.Count(p + "." + detail)
+				rec.Distinct(fmt.Sprintf("%s:%s:%d", p, mode, round))
+				if acked {
+					rec.Violation("C17", "hard.accepted."+p, fmt.Sprintf("%s upload accepted although current size + blob exceeds max_size_hard_limit", p), nil)
+					continue
+				}
+				if detail != "507" && detail != "ResourceExhausted" {
+					rec.Violation("C17", "hard.code."+p, fmt.Sprintf("%s upload refused by the hard limit answered %s, want 507 / RESOURCE_EXHAUSTED", p, detail), nil)
+				}
+				if miss, _ := f.vMissing(u.declHash, u.declSize); !miss {
+					rec.Violation("C17", "hard.stored."+p, "refused upload is present afterwards", nil)
+				}
+			}
+			_, _, after, _ := f.cache.Stats()
+			if after < before {
+				rec.Violation("C17", "hard.evicted", fmt.Sprintf("refused uploads evicted entries: %d -> %d", before, after), nil)
+			}
+			for i, b := range stored {
+				if code, body, _ := f.vHTTPDo("GET", "/cas/"+vSha(b), nil, nil); code != 200 || !bytes.Equal(body, b) {
+					rec.Violation("C17", "hard.read", fmt.Sprintf("entry %d no longer readable while the hard limit refuses writes: %d", i, code), nil)
+					break
+				}
+			}
+			f.Close()
+		}
+	}
+	rec.Set("rule", "cache filled to max_size_hard_limit (= max_size, so that eviction alone could make room) x 10 write paths x both storage modes")
+}
